@@ -229,6 +229,17 @@ func firstMatching(res *RunResult, key string) *Violation {
 	return nil
 }
 
+// firstUnknown is firstMatching that skips violations listed as known findings (an engine
+// that enumerates may record known findings before the one that matters).
+func firstUnknown(res *RunResult, key string, known []KnownFinding) *Violation {
+	for i := range res.Violations {
+		if res.Violations[i].Key() == key && !isKnown(known, res.Violations[i]) {
+			return &res.Violations[i]
+		}
+	}
+	return nil
+}
+
 // Main is the body of every engine's TestSim. It is driven entirely by
 // environment variables set by /verif/check.
 func Main(t *testing.T, e Engine) {
@@ -358,8 +369,8 @@ func Main(t *testing.T, e Engine) {
 			if r.Infra != "" {
 				return r, false
 			}
-			v := firstMatching(r, key)
-			return r, v != nil && !isKnown(known, *v)
+			v := firstUnknown(r, key, known)
+			return r, v != nil
 		}
 		best, bestRes := orig, res
 		// the recorded tape must itself reproduce; otherwise report as infra
@@ -373,7 +384,7 @@ func Main(t *testing.T, e Engine) {
 		if shrinkBudget > 0 {
 			best, bestRes = Shrink(orig, bestRes, fails, shrinkBudget)
 		}
-		v := firstMatching(bestRes, key)
+		v := firstUnknown(bestRes, key, known)
 		path := writeReplay(replayDir, e, opt, seed, i, best, len(orig), bestRes, *v)
 		out.Violations = append(out.Violations, map[string]string{"property": v.Property, "oracle": v.Oracle,
 			"signature": v.Signature, "detail": v.Detail, "replay": path,
@@ -456,7 +467,10 @@ func replayMain(t *testing.T, e Engine, opt Options, path string) {
 			fmt.Println("  trace:", l)
 		}
 	}
-	v := firstMatching(res, rf.Property+"|"+rf.Oracle)
+	v := firstUnknown(res, rf.Property+"|"+rf.Oracle, knownR)
+	if v == nil {
+		v = firstMatching(res, rf.Property+"|"+rf.Oracle)
+	}
 	if v == nil {
 		fmt.Printf("REPLAY-MISMATCH property=%s oracle=%s not reproduced (violations now: %v)\n", rf.Property, rf.Oracle, res.Violations)
 		return
